@@ -167,6 +167,10 @@ PROPS["C14"] = {
 PROPS["C07"]["engines"] += [universe("C07", 6000, 100000), cluster("C07")]
 PROPS["C07"]["assumptions"] += [SV_NOTE, H3_NOTE]
 PROPS["C14"]["engines"].append(cluster("C14"))
+PROPS["C10"]["engines"].append(cluster("C10"))
+PROPS["C11"]["engines"].append(cluster("C11"))
+PROPS["C10"]["assumptions"].append(H3_NOTE)
+PROPS["C11"]["assumptions"].append(H3_NOTE)
 PROPS["C14"]["assumptions"].append(H3_NOTE)
 PROPS["C05"]["engines"].append(cluster("C05"))
 PROPS["C05"]["engines"].append(universe("C05"))
